@@ -249,6 +249,15 @@ func genMacroCase() *rapid.Generator[MacroCase] {
 		mc := MacroCase{Defs: defs, Call: call, Macrolet: rapid.IntRange(0, 3).Draw(t, "macrolet") == 0, Stats: g.stats}
 		if !mc.Macrolet && rapid.IntRange(0, 3).Draw(t, "crosspkg") == 0 {
 			mc.CrossPkg = true
+			if rapid.Bool().Draw(t, "qualified-head") && mc.Call.K == "list" && len(mc.Call.L) > 0 && mc.Call.L[0].K == "sym" && !strings.Contains(string(mc.Call.L[0].B), ":") {
+				// the call names the macro by its qualified name ml:name: the
+				// call, macroexpand, macroexpand-1 and its iteration all see a
+				// package-qualified head
+				items := append([]gen.Val{}, mc.Call.L...)
+				items[0] = gen.S("ml:" + string(items[0].B))
+				mc.Call.L = items
+				g.stats["qualified-macro-head"]++
+			}
 		}
 		if rapid.IntRange(0, 9).Draw(t, "mutate-expansions") < 7 {
 			m := genMutMode(t)
